@@ -110,6 +110,8 @@ struct Shared {
     /// Some: appends run under this thread-local `metrics` recorder (global-recorder bridge)
     tl_recorder: Option<CountingRecorder>,
     live_bound: u64,
+    /// threads that await a flush future somebody else requested (joined at the end of the run)
+    awaiters: Mutex<Vec<detsim::thread::JoinHandle<()>>>,
     /// the plan's schedule seed: decides per flush request whether the future migrates between wakers
     run_key: u64,
     hist: History,
@@ -162,13 +164,19 @@ fn do_append_opt(sh: &Shared, h: &Handle, thread: u64, seq: &mut u64, bare: bool
 /// cannot cause a false alarm).
 fn do_flush(sh: &Shared, h: &Handle, op: &Value) {
     let fid = sh.next_fid.fetch_add(1, Ordering::SeqCst);
-    let mode = js(op, "mode", "await");
     if writer_parked(sh) {
         sh.flush_while_parked.fetch_add(1, Ordering::SeqCst);
     }
     let start_nexts = sh.ctl.nexts_done.load(Ordering::SeqCst);
     sh.hist.log(K::FlushReq { fid });
-    let mut fut = h.flush();
+    let fut = h.flush();
+    drive_flush(sh, fid, fut, op, start_nexts);
+}
+
+/// Wait for (or abandon) a flush request that has been made, as `op` says.
+fn drive_flush(sh: &Shared, fid: u64, fut: FlushWait, op: &Value, start_nexts: u64) {
+    let mode = js(op, "mode", "await");
+    let mut fut = fut;
     let new_waker = || {
         Arc::new(FlushWaker {
             key: detsim::fresh_key(),
@@ -515,6 +523,7 @@ fn queue_main(plan: &Value, slot: Arc<Mutex<Option<QueueRun>>>) {
         tl_recorder: if global_tl { Some(recorder.clone()) } else { None },
         live_bound: liveness_bound(plan).unwrap_or(u64::MAX),
         run_key: ju(plan.get("sched").unwrap_or(&Value::Null), "seed", 0),
+        awaiters: Mutex::new(vec![]),
         hist: hist.clone(),
         ctl: ctl.clone(),
         stop: AtomicBool::new(false),
@@ -538,6 +547,24 @@ fn queue_main(plan: &Value, slot: Arc<Mutex<Option<QueueRun>>>) {
             if idx == at {
                 let mut s = seq.fetch_add(1, Ordering::SeqCst);
                 do_append(&sh2, &h2, 600, &mut s);
+            }
+        });
+    }
+    if let Some(at) = plan.get("flush_from_next_at").and_then(|x| x.as_u64()) {
+        // the stream requests a flush of the very queue that is writing to it, from inside `next` - i.e. on the
+        // queue's own writer thread - and hands the future to another thread, which awaits it
+        let sh2 = sh.clone();
+        let h2 = handle.clone();
+        on_next_cb.set(move |idx: u64| {
+            if idx == at {
+                let fid = sh2.next_fid.fetch_add(1, Ordering::SeqCst);
+                let start_nexts = sh2.ctl.nexts_done.load(Ordering::SeqCst);
+                sh2.hist.log(K::FlushReq { fid });
+                sh2.hist.log(K::Note("flush_requested_on_the_writer_thread".into()));
+                let fut = h2.flush();
+                let sh3 = sh2.clone();
+                let t = detsim::thread::spawn_named("flush-awaiter", move || drive_flush(&sh3, fid, fut, &json!({"mode":"await"}), start_nexts));
+                sh2.awaiters.lock().unwrap().push(t);
             }
         });
     }
@@ -671,6 +698,13 @@ fn queue_main(plan: &Value, slot: Arc<Mutex<Option<QueueRun>>>) {
         }
     }
     let fin = writer_tid.map(detsim::thread_finished).unwrap_or(true);
+    if fin {
+        // (a request made on the writer thread is completed at the latest when that thread exits)
+        let ws: Vec<_> = sh.awaiters.lock().unwrap().drain(..).collect();
+        for w in ws {
+            let _ = w.join();
+        }
+    }
     on_next_cb.clear();
     sh.held.lock().unwrap().clear();
     let run = QueueRun {
@@ -1355,6 +1389,16 @@ fn long_idle_stratum(mut plan: Value) -> Value {
 /// The shutdown timeout has no say while the queue is alive: a fifth of the flush-barrier plans run with one of
 /// 1 ms / 50 ms / 2 s (far below the stalls of the stream) and, so that it has no say at the end either, wait for the
 /// writer to be idle before the join handle is dropped.
+/// A tenth of the flush-barrier plans: one flush is requested by the output stream itself, from inside `next` (on the
+/// queue's writer thread), and awaited by another thread.
+fn flush_from_writer_stratum(mut plan: Value) -> Value {
+    let h = mix(ju(plan.get("sched").unwrap_or(&Value::Null), "seed", 0), 0xf1f0);
+    if h % 10 == 0 && plan.get("append_from_next_at").map(|x| x.is_null()).unwrap_or(true) {
+        plan["flush_from_next_at"] = json!((h / 10) % 12);
+    }
+    plan
+}
+
 fn small_timeout_stratum(mut plan: Value) -> Value {
     let h = mix(ju(plan.get("sched").unwrap_or(&Value::Null), "seed", 0), 0x5a11);
     if h % 5 == 0 && ju(&plan, "shutdown_timeout_ns", 0) == 1_000_000_000_000_000 && plan.get("shutdown_timeout_huge").is_none() && plan.get("pre_end").map(|p| p.is_array()).unwrap_or(false) {
@@ -2026,7 +2070,7 @@ impl Scenario for QueueFlushBarrier {
         3
     }
     fn generate(&self, rng: &mut Rng, tier: Tier) -> Value {
-        small_timeout_stratum(huge_timeout_stratum(gen_c04_safety(rng, tier)))
+        flush_from_writer_stratum(small_timeout_stratum(huge_timeout_stratum(gen_c04_safety(rng, tier))))
     }
     fn run(&self, plan: &Value) -> Report {
         let (out, run) = run_queue_plan(plan);
